@@ -226,7 +226,7 @@ def weight_specs(N, scalar_ok=True, zero_ok=True, kinds=("none", "scalar", "arra
         dtype = draw(st.sampled_from(["float", "float", "int"]))
         form = draw(st.sampled_from(["nan", "tuple"])) if dtype == "float" else draw(
             st.sampled_from(["plain", "tuple"]))
-        rough = dtype == "float" and draw(st.integers(0, 3)) == 0
+        rough = dtype == "float" and draw(st.integers(0, 2)) == 0
         wide = False
         if rough:
             # weights that do not add exactly in binary floating point (0.1, 0.35, 1.7, ...)
